@@ -217,6 +217,9 @@ def run(ctx):
     check_eliminate_outer(ctx, f, ELIM)
     check_propagate_empty(ctx)
     check_push_down_limit(ctx)
+    # expression / child coverage of the LogicalPlan traversal functions (A6)
+    import plancov
+    plancov.check(ctx, floor=26)
     # selftest: a seeded wrong eliminate_outer in the selftest crate must be reported
     st = ctx.st
     import common
@@ -225,3 +228,10 @@ def run(ctx):
     bad = check_eliminate_outer(probe, st, 'dfscan_selftest::tables::bad_eliminate_outer', rule='st',
                                 jt_adt='dfscan_selftest::tables::JoinType')
     ctx.selftest('eliminate_outer bound detects seeded Left->Inner under left null-rejection', bad > 0)
+    SP = 'dfscan_selftest::plans::'
+    plancov.check(probe, 'st-cov', fns={'inputs': SP + 'Plan::inputs', 'map_children': SP + 'Plan::map_children', 'apply_expressions': SP + 'Plan::apply_expressions',
+                                        'map_expressions': SP + 'Plan::map_expressions'}, lp=SP + 'Plan', expr_types=(SP + 'Ex',), exempt={},
+                  helper_prefix=SP, floor=None)
+    keys = [v['key'] for v in probe.viol if v['key'].startswith('st-cov|')]
+    ctx.selftest('plan coverage rule reports Join.filter never read by apply_expressions and nothing else',
+                 len(keys) == 1 and 'Join.filter' in keys[0] and 'apply_expressions' in keys[0])
